@@ -17,7 +17,8 @@ Definition mkVS (a : bool) (h : Z) : VStat := {| v_active := a; v_height := h |}
 
 Record Obs := mkObs {
   o_reqs : list (Z * Req); o_tracker : list Z; o_susp : list (Z * Lvh);
-  o_vstat : list (Z * VStat); o_stake : list (Z * Z); o_bounty : Z }.
+  o_vstat : list (Z * VStat); o_stake : list (Z * Z); o_bounty : Z;
+  o_vrec : list (Z * Z)   (* monitor only: staking amount of the validator records (v_), filled at BeginBlock steps *) }.
 Record Step := mkStep { s_op : Op; s_ok : bool; s_obs : Obs; s_verdicts : list (Z * Z); s_elected : list Z }.
 Record Case := mkCase { c_cfg : Cfg; c_init : Obs; c_steps : list Step }.
 
@@ -133,13 +134,16 @@ Definition byz_frozen (o : Obs) (a : Z) : bool :=
    7 guilty validator's stake not reduced by exactly the penalty  8 bounty credited differs from / exceeds the penalties
    9 a frozen byzantine-fault record changed without a release    10 frozen validator still active after EndBlock
    11 a transaction that its handler's Validate must refuse (not signed by the named validator) was executed
+   15 a second GUILTY verdict event for an accused without a release in between (or two in one block)
+   16 a validator record's staking amount differs from its delegation total after BeginBlock
+   17 a verdict that is not reached on the votes of the validators elected at that EndBlock (strict reading)
    14 a validator with a GUILTY verdict and no release since voted (opening an allegation is only
       tied to the active status by the allegation handler: a convicted validator can still open one in
       the block after its conviction, until EndBlock drops it; not part of C19's text)
    (3 and 10 also fire for such a validator staking / being elected, whatever its freeze record says)
    13 the evidence status record of a staker differs from its election result (sent to Tendermint or not)
    12 a tracked request whose votes cross a share is still open after EndBlock (decision not taken once)
-   known-finding trigger (second number): 2 guilty_without_validator_record *)
+   known-finding triggers (second number): 2 guilty_without_validator_record  3 stale_votes_counted *)
 Definition mon_step (c : Cfg) (h t : Z) (el conv : list Z) (prev : Obs) (st : Step) : list (Z * Z) :=
   let next := s_obs st in
   let frozen_kept :=
@@ -181,7 +185,9 @@ Definition mon_step (c : Cfg) (h t : Z) (el conv : list Z) (prev : Obs) (st : St
         | None => [(4, 0)]
         end
       else []
-  | OBegin _ _ _ => []
+  | OBegin _ _ _ =>
+      (* after BeginBlock applied the postponed penalties: validator record = delegation total *)
+      flat_map (fun kv => if o_stake_of next kv.1 =? kv.2 then [] else [(16, 0)]) (o_vrec next)
   | OInvalid => if s_ok st then [(11, 0)] else []
   | OEnd queue _ =>
       (* the active count of the tally is the size of the elected set (what was sent to Tendermint) *)
@@ -196,6 +202,21 @@ Definition mon_step (c : Cfg) (h t : Z) (el conv : list Z) (prev : Obs) (st : St
           (o_reqs prev) in
       let trig (v : Z * Z) := 0 in
       let guilty := filter (fun v => v.2 = GUILTY) (s_verdicts st) in
+      (* one GUILTY verdict per accused and conviction *)
+      (fix dups (l : list (Z * Z)) : list (Z * Z) :=
+         match l with
+         | [] => []
+         | v :: r => (if inb v.1 conv || inb v.1 r.*1 then [(15, 0)] else []) ++ dups r
+         end) guilty ++
+      (* strict reading: the verdict must also be reached on the votes of validators elected now *)
+      flat_map (fun v =>
+        let el_now := s_elected st in
+        let cnt ch (r : Req) := Z.of_nat (length (filter (fun x => x.2 = ch /\ inb x.1 el_now = true) (r_votes r))) in
+        if existsb (fun kr => (r_mal kr.2 =? v.1) &&
+             (if v.2 =? GUILTY then guilty_x c (cnt YES kr.2) req else innocent_x c (cnt NO kr.2) req)) (o_reqs prev)
+        then []
+        else [(17, if existsb (fun kr => (r_mal kr.2 =? v.1) && existsb (fun x => negb (inb x.1 el_now)) (r_votes kr.2)) (o_reqs prev)
+                   then 3 else 0)]) (s_verdicts st) ++
       flat_map (fun v => if verdict_ok v then [] else [(5, trig v)]) (s_verdicts st) ++
       flat_map (fun v => if byz_frozen next v.1 then [] else [(6, 0)]) guilty ++
       flat_map (fun v =>
